@@ -818,7 +818,11 @@ impl MachineState {
                     self.fail = true;
                     return Ok(());
                 }
-            } else if !max_steps.map(|n| n.is_integer()).unwrap_or(false) {
+            } else if !max_steps
+                .map(|n| n.is_integer() && !n.is_negative())
+                .unwrap_or(false)
+            {
+                // a negative big integer is no more a valid maximum than a negative fixnum.
                 self.fail = true;
                 return Ok(());
             }
